@@ -185,6 +185,19 @@ CLAIMED["C31"] = dict(
         "key alone, so file ids sharing a key alias (the lemma that the key identifies the file is refuted and listed). " + TRUST,
    design="DESIGN.md §4 C31")
 
+CLAIMED["C11"] = dict(
+   text="Proof-level kernel of the writability decision: VolumeLocationList.Set / Remove are verified as set operations keyed by (Ip, Port) with inductive loop "
+        "invariants for lists of any length (replace in place or append; remove exactly the first matching entry and report whether there was one; checked frames); "
+        "enoughCopies equals the statement's replica-count condition; setVolumeWritable / removeFromWritable keep the writable list a set; isAllWritable is true exactly "
+        "when no registered replica reports the volume read-only; ensureCorrectWritables and SetVolumeAvailable add a volume to the writable list only after "
+        "enoughCopies, isAllWritable and the oversized state were asked for that volume id and allowed it, and remove it when copies or writability fail; "
+        "RegisterVolume registers the server, records the oversized state on every path (deferred call) and Lookup returns the registered list.",
+   note="What a server reports about a volume (DataNode.GetVolumesById over the disk tree) and the oversized / read-only bookkeeping (volumesBinaryState) are abstract; "
+        "that removeFromWritable leaves no occurrence of the id (needs the duplicate-freeness at two indices) is not proved - all solvers give up; the heartbeat "
+        "sequencing in topology.go / master_grpc_server.go and the history argument are not decided here. One defect repaired (SetVolumeAvailable ignored read-only "
+        "replicas). " + TRUST,
+   design="DESIGN.md §4 C11")
+
 NA = {
  "C03":"crash-point property over byte-level truncation of two persistent files; no per-function contract within reach decides it (DESIGN §4 C03)",
  "C10":"needs inductive tree predicates and cardinality reasoning over interface-typed nodes in pointer maps with randomised picking (DESIGN §4 C10)",
